@@ -93,6 +93,8 @@ type Config struct {
 	// steps as concurrent. Exact replay is lost in this mode.
 	Parallel       float64
 	ParallelBudget int
+	// EventOrderByQueue: see enabled()
+	EventOrderByQueue bool
 	// StallProb > 0 turns on the "stalled goroutine" fault: at an optional yield
 	// point the running task is, with this probability, descheduled for a short
 	// simulated time (100 us .. 50 ms) - what a loaded machine does to any
@@ -219,6 +221,19 @@ func (s *Sched) Logf(format string, args ...any) {
 	if s.cfg.KeepTrace {
 		s.trace = append(s.trace, line)
 	}
+	s.logMu.Unlock()
+}
+
+// Tracef adds a line to the kept trace only: for effects whose order inside one step
+// is decided by un-instrumented code (and does not matter), so that it must not
+// enter the hash the determinism self-check compares.
+func (s *Sched) Tracef(format string, args ...any) {
+	if !s.cfg.KeepTrace {
+		return
+	}
+	msg := fmt.Sprintf(format, args...)
+	s.logMu.Lock()
+	s.trace = append(s.trace, strconv.Itoa(int(s.step.Load()))+" "+strconv.FormatInt(int64(s.Now()/time.Microsecond), 10)+"us "+msg)
 	s.logMu.Unlock()
 }
 
@@ -816,6 +831,22 @@ func (s *Sched) enabled(now time.Time) []action {
 	sort.Slice(due, func(i, j int) bool {
 		if !due[i].at.Equal(due[j].at) {
 			return due[i].at.Before(due[j].at)
+		}
+		if s.cfg.EventOrderByQueue {
+			// events due at the same instant: ordered by their queue (or name), not by the
+			// order in which they happened to be created - un-instrumented code may create
+			// them in the iteration order of a Go map (net/http closing idle connections);
+			// within one queue creation order is kept (FIFO)
+			ki, kj := due[i].queue, due[j].queue
+			if ki == "" {
+				ki = due[i].name
+			}
+			if kj == "" {
+				kj = due[j].name
+			}
+			if ki != kj {
+				return ki < kj
+			}
 		}
 		return due[i].seq < due[j].seq
 	})
